@@ -653,7 +653,12 @@ func first(list MalType) string {
 func malRecover(err *error) {
 	rerr := recover()
 	if rerr != nil {
-		*err = rerr.(error)
+		switch rerr := rerr.(type) {
+		case error:
+			*err = rerr
+		default:
+			*err = lisperror.NewLispError(rerr, nil)
+		}
 	}
 }
 
